@@ -28,7 +28,12 @@ var gOps = []string{
 	// so that a cutoff can lie AFTER a delete and BEFORE every version's creation time (a vacuum that purges the
 	// marker without removing history; the table returns to byte-identical earlier contents)
 	"w1:insert 2 with-ancient-write-time", "w1:delete 2 with-ancient-write-time", "w1:vacuum-before-all-versions",
+	"w2:insert 2 with-ancient-write-time", "w2:delete 2 with-ancient-write-time",
 }
+
+// gReplayOps: a second writer (with its own node cache) writes, deletes and - after the first writer vacuumed and
+// it refreshed - REPLAYS a row with a fixed write time, which re-creates earlier nodes byte for byte
+var gReplayOps = []string{"w2:insert 2 with-ancient-write-time", "w2:delete 2 with-ancient-write-time", "w2:refresh", "w1:refresh", "w1:vacuum-all"}
 
 // gMainOps is the number of events of the main alphabet (a prefix of gOps).
 const gMainOps = 14
@@ -142,6 +147,25 @@ func gRun(r *engine.Run, mode string) int {
 		}
 	}
 	r.Bounds["ancient_write_times_slice"] = map[string]interface{}{"alphabet": gAncientOps, "depth": depth + 1}
+	// the replay slice: node-cache configuration only, three events deeper over 5 events (most sequences end early:
+	// a replay is only meaningful after delete, vacuum and refresh)
+	var rp []int
+	for _, name := range gReplayOps {
+		for i, o := range gOps {
+			if o == name {
+				rp = append(rp, i)
+			}
+		}
+	}
+	r.Bounds["replay_slice"] = map[string]interface{}{"alphabet": gReplayOps, "depth": depth + 3, "node_cache_entries": 100}
+	for _, a := range rp {
+		for _, b := range rp {
+			if mode != "c09" {
+				break // its oracle (a commit never publishes a version with missing objects) is C09's
+			}
+			cases = append(cases, engine.J(gCase{Mode: mode, EPN: 4096, Cache: 100, First: []int{a, b}, Depth: depth + 3, Alpha: rp}))
+		}
+	}
 	for _, cf := range cfgs {
 		for _, a := range anc {
 			for _, b := range anc {
@@ -296,6 +320,7 @@ func gRunSeq(res *engine.Result, c gCase, ops []int, ci int, flt *gFault) (inter
 	// versions that a vacuum earlier in this history removed (legitimately: that vacuum was itself the final,
 	// fully checked vacuum of the shorter history). A stale writer's retire step may write such a version object
 	// again under root/merged/; it is not a retained version.
+	sawVacuum := map[string]bool{} // writer has refreshed / reconnected since the last vacuum (or ran it)
 	vacuumedEarlier := map[string]bool{}
 	model := map[int]*gModelRow{} // global (all committed statements), single monotone clock
 	reclaimed := map[int]bool{}   // keys whose delete marker an (earlier) vacuum has legitimately reclaimed
@@ -369,6 +394,7 @@ func gRunSeq(res *engine.Result, c gCase, ops []int, ci int, flt *gFault) (inter
 				reclaimed[k] = true
 			}
 		}
+		sawVacuum = map[string]bool{"w1": true}
 		return true
 	}
 	for step, o := range ops {
@@ -387,8 +413,10 @@ func gRunSeq(res *engine.Result, c gCase, ops []int, ci int, flt *gFault) (inter
 			fmt.Sscanf(action[7:], "%d", &k)
 			m := model[k]
 			if strings.HasPrefix(action, "insert") {
-				if m != nil {
-					return nil, false // only the first write of the key (no interplay with newer markers)
+				// the first write of the key, or its replay after the marker was reclaimed by a vacuum that this
+				// writer has seen (no interplay with markers that are still around)
+				if m != nil && !(!m.live && reclaimed[k] && sawVacuum[who]) {
+					return nil, false
 				}
 				stmtTime = engine.T(500)
 			} else {
@@ -413,6 +441,10 @@ func gRunSeq(res *engine.Result, c gCase, ops []int, ci int, flt *gFault) (inter
 			switch action[:6] {
 			case "insert":
 				q = fmt.Sprintf("insert into {T} values(%d,'i%d','c%d')", k, step, step)
+				if stmtTime.Equal(engine.T(500)) {
+					// the ancient INSERT always writes the same row at the same time: its replay is byte-identical
+					q = fmt.Sprintf("insert into {T} values(%d,'anc','anc')", k)
+				}
 			case "update":
 				q = fmt.Sprintf("update {T} set b='u%d' where a=%d", step, k)
 			case "delete":
@@ -430,6 +462,9 @@ func gRunSeq(res *engine.Result, c gCase, ops []int, ci int, flt *gFault) (inter
 			switch action[:6] {
 			case "insert":
 				*m = gModelRow{live: true, b: fmt.Sprintf("i%d", step), c: fmt.Sprintf("c%d", step), insTime: stmtTime}
+				if stmtTime.Equal(engine.T(500)) {
+					m.b, m.c = "anc", "anc"
+				}
 				delete(reclaimed, k)
 			case "update":
 				// w2 may be stale: its update applies to the row as the merge will see it
@@ -479,6 +514,7 @@ func gRunSeq(res *engine.Result, c gCase, ops []int, ci int, flt *gFault) (inter
 				viol("c09", "refresh-failed", "%v", err)
 				return nil, false
 			}
+			sawVacuum[who] = true
 			created[who] = now()
 			record(cl, now())
 		case op == "merge-open":
@@ -927,6 +963,19 @@ func gRunSeq(res *engine.Result, c gCase, ops []int, ci int, flt *gFault) (inter
 		rows, _ := w1.Query(selAll)
 		if !rows.Equal(preOwn) {
 			viol("c09", "repeated-vacuum-changes-rows", "rows after repeating the vacuum: %v, before %v", rows, preOwn)
+		}
+	}
+	// statements that match no row change nothing, so their commit must write nothing - also right after a vacuum
+	// (which may have removed the handle's own, empty, current version)
+	{
+		mark := w.B.LogLen()
+		e1 := w1.Exec("update {T} set b='zz' where a=999")
+		e2 := w1.Exec("delete from {T} where a=999")
+		for _, rq := range w.B.LogSince(mark) {
+			if rq.Client == "w1" && rq.Mutating() {
+				viol("c09", "noop-statement-after-vacuum-writes", "after the vacuum an UPDATE / DELETE that matches no row (%v %v) issued %s", e1, e2, rq.String())
+				break
+			}
 		}
 	}
 	// a late-arriving older write by a stale writer still loses against markers that were kept
